@@ -202,6 +202,48 @@ class FnParam(Component):
       s.out @= s.in_ + k
 
 
+KCfg = mk_bitstruct("KCfg", {"x": Bits4, "y": Bits4})
+
+
+class ConstStructs(Component):
+  """several bitstruct-valued member constants read whole in update blocks: each becomes a declared constant of the module"""
+  def construct(s):
+    s.sel = InPort(Bits2)
+    s.out = OutPort(KCfg)
+    s.k_first = KCfg(1, 2)
+    s.k_second = KCfg(3, 4)
+    s.k_third = KCfg(5, 6)
+    s.zz_last = KCfg(7, 8)
+    s.a_early = KCfg(9, 10)
+
+    @update
+    def up_cs():
+      if s.sel == 0: s.out @= s.k_first
+      elif s.sel == 1: s.out @= s.k_second
+      elif s.sel == 2: s.out @= s.k_third
+      else: s.out @= s.zz_last
+
+    s.o2 = OutPort(KCfg)
+
+    @update
+    def up_cs2():
+      s.o2 @= s.a_early
+
+
+class ConstLists(Component):
+  """several closure lists of Bits constants, each indexed in an update block"""
+  def construct(s):
+    s.sel = InPort(Bits1)
+    s.out = OutPort(Bits8)
+    s.tbl_b = [Bits8(3), Bits8(5)]
+    s.tbl_a = [Bits8(7), Bits8(11)]
+    s.tbl_c = [Bits8(13), Bits8(17)]
+
+    @update
+    def up_cl():
+      s.out @= s.tbl_b[s.sel] + s.tbl_a[s.sel] + s.tbl_c[0]
+
+
 # (label, factory) ; a factory returns a fresh component instance
 def catalogue():
   S1 = mk_struct({"a": Bits4, "b": Bits4})
